@@ -216,8 +216,17 @@ def op_run(op, cfg, state, seed, keyname):
             if not lkeys:
                 return ("rejected", "no list value")
             key = lkeys[seed % len(lkeys)]
+            if how == "value_fill_empty":
+                # specifically a list that is empty (no sleep-mask sections, no BeaconGate APIs, an empty program ...)
+                empties = [k for k in lkeys if not view[k]]
+                if not empties:
+                    return ("rejected", "no empty list value")
+                key = empties[seed % len(empties)]
         try:
-            if how == "value_iadd":
+            if how == "value_fill_empty":
+                view[key].append(("mask", True))
+                view[key].extend(["Sleep", "Core"])
+            elif how == "value_iadd":
                 view[key] += [("mask", True)]
             elif how == "value_append":
                 view[key].append(("mask", True))
@@ -367,7 +376,7 @@ def gen_ops(rng, has_rsa, n):
         elif r < 0.9 and has_rsa:
             ops.append(("session", rng.choice(["fixed", "fixed", "varying"])))
         else:
-            ops.append(("mutate", rng.choice(VIEWS + ["map:name:pretty", "map:const:pretty", "map:enum:pretty"]), rng.choice(["setitem", "delitem", "update", "clear", "setdefault", "pop", "value_iadd", "value_append", "value_reverse", "value_clear", "value_setitem", "value_bytes", "value_heap", "value_reinit"])))
+            ops.append(("mutate", rng.choice(VIEWS + ["map:name:pretty", "map:const:pretty", "map:enum:pretty"]), rng.choice(["setitem", "delitem", "update", "clear", "setdefault", "pop", "value_iadd", "value_append", "value_reverse", "value_clear", "value_setitem", "value_bytes", "value_heap", "value_reinit", "value_fill_empty", "value_fill_empty"])))
     return ops
 
 
